@@ -154,6 +154,23 @@ def define(obj, degrees, sizes, ctrlptsw, knots):
     return obj
 
 
+def define_shared(obj, degrees, sizes, ctrlptsw, knots):
+    """Like define(), but hands the caller's knot vector list objects to the setters (no defensive copy), the way a user who
+    builds several patches from one knot vector variable does."""
+    nd = len(degrees)
+    if nd == 1:
+        obj.degree = degrees[0]
+        obj.set_ctrlpts(copy.deepcopy(ctrlptsw))
+        obj.knotvector = knots[0]
+    else:
+        for d in range(nd):
+            setattr(obj, "degree_" + SUFFIX[d], degrees[d])
+        obj.set_ctrlpts(copy.deepcopy(ctrlptsw), *sizes)
+        for d in range(nd):
+            setattr(obj, "knotvector_" + SUFFIX[d], knots[d])
+    return obj
+
+
 def kind_of(obj):
     return {1: "curve", 2: "surface", 3: "volume"}[obj.pdimension]
 
